@@ -282,6 +282,7 @@ theorem filter_clock_read_at_submission :
     "getEpochHour" ∉ O4.Facts.Obfs4.serverHandshake_generateHandshake_calls ∧
     O4.Facts.Replayfilter.ReplayFilter_TestAndSetNow_locked = true ∧
     O4.Facts.Replayfilter.ReplayFilter_TestAndSetNow_prelock ⊆ ["key"] ∧
+    "time.Now" ∉ O4.Facts.Replayfilter.ReplayFilter_TestAndSetNow_prelock_calls ∧
     "time.Now" ∈ O4.Facts.Replayfilter.ReplayFilter_TestAndSetNow_calls ∧
     "f.testAndSet" ∈ O4.Facts.Replayfilter.ReplayFilter_TestAndSetNow_calls ∧
     O4.Facts.Replayfilter.ReplayFilter_testAndSet_fields ⊆ O4.Facts.Replayfilter.ReplayFilter_TestAndSetNow_fields := by
